@@ -1166,6 +1166,17 @@ pub fn exec_op(sim: &mut Sim, op: &str) -> (Outcome, usize) {
         ["blkn", n] => sim.add_blocks(num(n) as u64),
         ["blk-", g] => sim.remove_block(*g == "g"),
         ["restart"] => sim.restart(),
+        // the clock moves on (keysends expire after 60 s, invoices a day after their expiry: the next heartbeat prunes
+        // them and must persist the pruned node state).  Only used by monitor-only groups: the node-request model
+        // runs with a constant clock.
+        ["tick", n] => {
+            let secs = num(n) as u64;
+            sim.txn(|s| {
+                let now = s.clock.now();
+                s.clock.set(now + Duration::from_secs(secs));
+                Ok(())
+            })
+        }
         ["mainloss"] => sim.main_loss(),
         _ => (Outcome::Err("bad-op".into()), 0),
     }
@@ -1175,7 +1186,20 @@ pub fn gen_ops(rng: &mut Rng, len: usize) -> Vec<String> {
     let mut ops = Vec::new();
     while ops.len() < len {
         // legit bursts keep the channel moving so that refusals are reached from many states
-        match rng.below(13) {
+        match rng.below(14) {
+            13 if ops.len() < 4 => {
+                // a FULL channel map that holds garbage (stubs aged past the prune horizon, or just short of it), and
+                // then creations that are refused: for an id at or below the high-water mark, and because the map is full
+                let top = rng.range(4, 7);
+                ops.push(format!("newch {}", top));
+                ops.push("forget 1".to_string());
+                for d in (top + 1)..=(top + 3) { ops.push(format!("newch {}", d)); }
+                ops.push(format!("blkn {}", *rng.pick(&[6u64, 7, 8, 12])));
+                ops.push(format!("newch {}", rng.range(1, top + 1)));
+                ops.push(format!("newch {}", top + 4));
+                if rng.chance(1, 2) { ops.push("hb".to_string()); ops.push(format!("newch {}", top + 4)); }
+                continue;
+            }
             0 | 1 => {
                 // a complete holder update
                 ops.push(format!("vh 0 g {}", rng.below(9)));
